@@ -5,7 +5,7 @@ import json, sys
 
 CHECKS = {
  "C19": dict(
-   text="Thin structural check of the Merkle tree: builder, prover and verifier agree on how a node is paired with its sibling (left-first hashing, odd index takes the element before it, even the one after, last node of an odd level pairs with itself); the three level walks step with the same expressions (ceil(size/2), offset + size, index halving; loop bounds consistent); the prover reads the right neighbour only under the strict in-level test; ComputeTree and SetTree establish the same fields, a path has levels-1 elements, the root is the last element. Arithmetic is compared after normalising equivalent spellings (x/2, x>>1, (x-x&1)/2).",
+   text="Thin structural check of the Merkle tree: builder, prover and verifier agree on how a node is paired with its sibling (left-first hashing, odd index takes the element before it, even the one after, last node of an odd level pairs with itself); the three level walks step with the same expressions (ceil(size/2), offset + size, index halving; loop bounds consistent); the prover reads the right neighbour only under the strict in-level test; ComputeTree and SetTree establish the same fields, a path has levels-1 elements, the root is the last element. Arithmetic is compared after normalising equivalent spellings (x/2, x>>1, (x-x&1)/2). Further: ComputeTree stores nodes only into a slice it allocated, because GetTree/SetTree share the slice (FRESH-tree); a rejected SetTree leaves the receiver unchanged (DOM-atomic).",
    note="Does not decide that every path verifies for every leaf count and index, nor that it fails for another leaf: that is index arithmetic over runtime values and is better served by exhaustive enumeration (another technique family). What is decided are agreement conditions between the three routines, each necessary for honest paths to verify.",
    technique="sibling-implementation agreement with arithmetic normalisation, strict-guard dominance on go/ssa",
    ref="DESIGN.md section 5 C19 / section 6"),
@@ -25,7 +25,7 @@ CHECKS = {
    technique="ordering/dominance checks, range-guard facts, pre-image vs decision-input agreement on go/ssa",
    ref="DESIGN.md section 5 C10"),
  "C11": dict(
-   text="Structural necessary conditions for recoverability and safe garbage collection: every saved kind is put into the batch before a success return and after its dirty children; nothing reachable from Commit deletes from storage; DeleteNodes deletes only the `deleted` set and stages tempDeleted afterwards; the created-hash handler must purge every field that later feeds deletes; only saving/decoding entry points may clear the dirty flag. Known findings: tempDeleted is not purged; Root/GetBlockProof/GetPath clear dirty (witnesses recorded).",
+   text="Structural necessary conditions for recoverability and safe garbage collection: every saved kind is put into the batch before a success return and after its dirty children; nothing reachable from Commit deletes from storage; DeleteNodes deletes only the `deleted` set and stages tempDeleted afterwards; the created-hash handler must purge every field that later feeds deletes; only saving/decoding entry points may clear the dirty flag. Known findings: tempDeleted is not purged; Root/GetBlockProof/GetPath clear dirty (witnesses recorded). Further: a previous hash is scheduled for collection only when it differs from the node's new hash (DOM-unchanged). Known finding REF-shared: nodes are stored and collected by content hash with no position component, so identical content under two keys is one stored node that a delete of either key collects.",
    note="Does not decide that a reopened trie is observationally identical; batches are the atomic unit by the property's quantifier.",
    technique="must-pass-through, call-graph effect confinement, provenance dataflow of deleted keys, field-set agreement on go/ssa",
    ref="DESIGN.md section 5 C11"),
@@ -40,7 +40,7 @@ CHECKS = {
    technique="sibling agreement (field-reset sets, guard conditions) on go/ssa",
    ref="DESIGN.md section 5 C13"),
  "C17": dict(
-   text="Error discipline and traversal structure behind missing-node detection and repair, decided on every path: at each of the trie's node lookups every error-path return yields a real error (never the benign 'not present' sentinel, never success); the branch arm of the traversal keeps visiting the remaining children, counts absent-node sentinels and reports under counter != 0; the sentinel set counted by the traversal equals the set the detector maps to 'missing'; nodes handed out by the donor store during repair are stored under their own hash without being modified.",
+   text="Error discipline and traversal structure behind missing-node detection and repair, decided on every path: at each of the trie's node lookups every error-path return yields a real error (never the benign 'not present' sentinel, never success); the branch arm of the traversal keeps visiting the remaining children, counts absent-node sentinels and reports under counter != 0; the sentinel set counted by the traversal equals the set the detector maps to 'missing'; nodes handed out by the donor store during repair are stored under their own hash without being modified. Further: every failed node access is recorded among the reported missing keys (DOM-record).",
    note="Does not decide exactness of the reported key set for every removal subset. Path enumeration per function is capped at 4096 acyclic paths.",
    technique="error-path return classification with feasible-path facts, loop/counter structure check, sentinel-set agreement, provenance dataflow (FRESH) on go/ssa",
    ref="DESIGN.md section 5 C17"),
@@ -50,7 +50,7 @@ CHECKS = {
    technique="writer/reader skeleton agreement over typed AST and go/ssa, key/index agreement at store write sites",
    ref="DESIGN.md section 5 C14"),
  "C01": dict(
-   text="Totality and pre-condition clauses of the map behaviour, decided on every path: each node-kind dispatch of lookup/insert/delete/iterate has an arm for every storable kind, no such arm is a panic and no panicking default is reachable with a nil node; Insert locks or mutates only after rejecting over-size values and routing nil/empty values to Delete; deleting at a value-less branch, under a mismatching leaf or below a nil child reports 'not present'; no extension node is ever built with an empty path (which would hide its subtree from lookups). Further: only a value-less branch is replaced by its only child (DOM-lift); a node the rebuilt trie still references is never handed to deleteNode (WHO-livedelete).",
+   text="Totality and pre-condition clauses of the map behaviour, decided on every path: each node-kind dispatch of lookup/insert/delete/iterate has an arm for every storable kind, no such arm is a panic and no panicking default is reachable with a nil node; Insert locks or mutates only after rejecting over-size values and routing nil/empty values to Delete; deleting at a value-less branch, under a mismatching leaf or below a nil child reports 'not present'; no extension node is ever built with an empty path (which would hide its subtree from lookups). Further: only a value-less branch is replaced by its only child (DOM-lift); a node the rebuilt trie still references is never handed to deleteNode (WHO-livedelete). The node codecs agree on separators and field order (AGREE-fields, see C14).",
    note="Does not decide that lookups return the last stored value for every history (path arithmetic and slicing are value-level), nor hex validation of paths (outside the quantifier). The 'non-nil node when no error' fact about getNode is assumed (named results, not constants).",
    technique="type-dispatch exhaustiveness + nil-result summaries, path-sensitive guard facts, non-emptiness discharge table on go/ssa",
    ref="DESIGN.md section 5 C01"),
@@ -85,7 +85,7 @@ CHECKS = {
    technique="must-lockset analysis + constructor/aliasing audit + store-freshness and ordering checks on go/ssa",
    ref="DESIGN.md section 5 C20"),
  "C18": dict(
-   text="Checked-arithmetic discipline of core/currency decided on every feasible path: each integer + - * / %, each numeric conversion and the panicking decimal constructor is discharged by an accepted guard idiom (operand wrap check, subtrahend<=minuend, post-division check over a non-zero factor, non-zero divisor, sign/NaN/2^64 rejection before float->uint64, NaN/Inf rejection before NewFromFloat) or reported; plus an operator table of the named helpers. The package is small, loop-free and pure, so this covers nearly the whole 'never wraps, saturates or panics' clause.",
+   text="Checked-arithmetic discipline of core/currency decided on every feasible path: each integer + - * / %, each numeric conversion and the panicking decimal constructor is discharged by an accepted guard idiom (operand wrap check, subtrahend<=minuend, post-division check over a non-zero factor, non-zero divisor, sign/NaN/2^64 rejection before float->uint64, NaN/Inf rejection before NewFromFloat) or reported; plus an operator table of the named helpers. The package is small, loop-free and pure, so this covers nearly the whole 'never wraps, saturates or panics' clause. Further: float-taking helpers report success only after the argument tested a number and bounded from above, or by delegating a value computed from it (ARG-finite).",
    note="Does not decide the decimal-exponent logic of ParseZCN/ToZCN (library semantics) nor the format/parse round trip; exactness is decided only as 'result of the promised operator on the parameters, reached only when the guard excludes wrap-around'. An idiom outside the guard table is reported as undecided. Trusted: go/ssa; structural equality of guard atoms.",
    technique="guard-table discharge of arithmetic instructions over go/ssa with feasible-path facts",
    ref="DESIGN.md section 5 C18"),
@@ -100,7 +100,7 @@ CHECKS = {
    technique="path-sensitive guard (must-pass-through) checks on go/ssa CFG, provenance dataflow for hash/key sources",
    ref="DESIGN.md section 5 C06"),
  "C07": dict(
-   text="Structural necessary conditions of cache isolation decided on every CFG path: every Value crossing a cache-map boundary (caller->map, map->caller, txn->block->state) has a Clone() result as its only provenance; setValue/commit are reachable only from the commit entry points; every Clone() implementation is a deep (codec) copy. Breaking any of these shares a mutable value or leaks an uncommitted write. Further: DOM-writekept (see C06): what a transaction commits, including tombstones, always reaches the block's pending map.",
+   text="Structural necessary conditions of cache isolation decided on every CFG path: every Value crossing a cache-map boundary (caller->map, map->caller, txn->block->state) has a Clone() result as its only provenance; setValue/commit are reachable only from the commit entry points; every Clone() implementation is a deep (codec) copy. Breaking any of these shares a mutable value or leaks an uncommitted write. Further: DOM-writekept (see C06): what a transaction commits, including tombstones, always reaches the block's pending map. Lookups never store into a pending map (WHO-readonly, see C06).",
    note="Decides the copy-on-boundary, layering and deep-copy clauses only; 'after commit the values are what lookups return' is value-level and not decided. Trusted: go/types+go/ssa model of the source; CHA resolution of interface calls; third-party LRU treated as a named API.",
    technique="forward provenance dataflow on go/ssa (field-sensitive cells), repo call-graph who-may-call, Clone() implementation audit",
    ref="DESIGN.md section 5 C07"),
